@@ -268,6 +268,43 @@ def run(ctx):
                                      "variant": {k: repr(v)[:400] for k, v in ch.items() if ch0.get(k) != v},
                                      "variant_nt": to_nt(gv), **pipeline.case_json(g, cfg)})
         nontriv += len(g) >= 4 and bool(r0[1]['shapes'])
+    # ---------------- two classes with one local name in different namespaces (both shapes get the same label: finding F-C05-1); which class
+    # a label stands for, and the figures under it, must still not depend on the order of the statements: compared as multisets
+    from shexer.shaper import Shaper
+    from shexer import consts as C
+    import shex_text
+    stats["homonymous_class_documents"] = 0
+    for i in range(12 if ctx.tier == "quick" else 120):
+        A, B = 'http://xmlns.example/foaf/', 'http://schema.example/'
+        g = []
+        na, nb = rng.randint(2, 4), rng.randint(2, 4)
+        for k in range(na):
+            g += [(I('fa%d' % k), RDF_TYPE, ('I', A + 'Person')), (I('fa%d' % k), EX + 'nick', L('n%d' % k))]
+            if k:
+                g.append((I('fa%d' % k), EX + 'knows', I('fa0')))
+        for k in range(nb):
+            g += [(I('sb%d' % k), RDF_TYPE, ('I', B + 'Person')), (I('sb%d' % k), EX + 'email', L('m%d' % k)), (I('sb%d' % k), EX + 'email', L('x%d' % k))]
+            if k and i % 2:
+                g.append((I('sb%d' % k), EX + 'boss', I('sb0')))
+        outs = []
+        for _ in range(4):
+            g2 = list(g)
+            rng.shuffle(g2)
+            try:
+                txt = Shaper(raw_graph=to_nt(g2), input_format=C.NT, all_classes_mode=True, instances_report_mode=C.MIXED_INSTANCES,
+                             inverse_paths=(i % 3 == 0)).shex_graph(string_output=True)
+                par = shex_text.parse(txt)
+                ms = sorted((sh['label'], sh['n'], tuple(sorted({(st['inv'], st['prop']) for st in sh['stmts']})))      # (ties may pick another alternative: F-C09-1)
+                            for sh in par['shapes'])
+            except Exception as e:
+                ms = "%s: %s" % (type(e).__name__, str(e)[:120])
+            outs.append((ms, g2))
+        stats["homonymous_class_documents"] += 1
+        for ms, g2 in outs[1:]:
+            if ms != outs[0][0]:
+                viol.append({"what": "two classes with one local name (%sPerson, %sPerson): labels / figures of the shapes depend on the order of the statements" % (A, B),
+                             "first_order": repr(outs[0][0])[:700], "other_order": repr(ms)[:700], "nt_first": to_nt(outs[0][1]), "nt_other": to_nt(g2)})
+                break
     return base.std_result(ctx, cases, viol, dis, base.known_lines(kf, reproduced), stats, nontriv, [],
                            "per random graph (40 % schema-consistent) and configuration: 3 random permutations of the document and one blank-node "
                            "relabelling (also permuted); 40 (600) classes whose instances differ in the number of values of one property, rare cardinality first / last, "
